@@ -15,9 +15,10 @@ def check(ctx):
     traces = anngen.run(ctx.seed, ctx.pick(360, 6000), ctx.pick(8, 12), INSTS, list("ABDF"), tag="c06",
                         with_sub=True, with_find=False, stop_twice=False)
     bad, ms = judge(ctx, "Mon_C06", traces, "subscribe histories", anngen.payload)
+    sim = anngen.spec_to_code_ann(ctx, "Mon_C06", "C06_A", "C06_Inputs", "A", ["I1"], ["I1"], ctx.pick(20, 300))
     acc, total = anngen.conform_by_variant(ctx, traces, ctx.pick(100, 1000))
     cov = dict(states=m1.states, transitions=m1.trans, traces_validated_against_impl=acc, monitor_traces=len(traces),
-               monitor_failures=bad, monitor_states=ms, conformance_traces=total, spec_drift=total - acc, tlc_runs=m1.runs,
+               monitor_failures=bad, monitor_states=ms, conformance_traces=total, spec_drift=total - acc, tlc_runs=m1.runs, **sim,
                exhaustive=False,
                samples=[{"variant": traces[0]["variant"], "schedule": traces[0]["sched"][:6], "trace": traces[0]["ev"][:20]}],
                rule="TLC: subscription store of SD.tla x Mon_C06 (alternation, ghost liveness from the inputs, reboot applied "
